@@ -257,7 +257,7 @@ func ruleBlockEndBypass(r *Run, rule string) {
 		}
 		bypass := false
 		for _, e := range p.Ev {
-			if e.Kind == EvBranch && e.Taken && e.Cond != nil && strings.Contains(ExprStr(e.Cond), "BypassChecks.State.Status == workflow.Completed") {
+			if Establishes(fl.Info, e, fieldMatcher(fl.Info, "", "BypassChecks", "State", "Status"), "workflow.Completed", true) {
 				bypass = true
 			}
 		}
@@ -652,7 +652,7 @@ func ruleRunChecksOnce(r *Run, rule string) {
 		}
 		hook := false
 		for _, e := range p.Ev {
-			if e.Kind == EvBranch && e.Cond != nil && e.Taken && strings.Contains(ExprStr(e.Cond), "testChecksRunner != nil") {
+			if Establishes(fl.Info, e, fieldMatcher(fl.Info, "", "testChecksRunner"), "nil", false) {
 				hook = true
 			}
 		}
@@ -1160,10 +1160,8 @@ func ruleStartGuard(r *Run, rule string) {
 			if strings.HasSuffix(next, ".GetPlugin") {
 				okNS := false
 				for _, e := range p.Ev {
-					if e.Kind == EvBranch && e.Cond != nil && !e.Taken {
-						if strings.Contains(ExprStr(e.Cond), "State.Status != workflow.NotStarted") {
-							okNS = true
-						}
+					if Establishes(fl.Info, e, fieldMatcher(fl.Info, "", "State", "Status"), "workflow.NotStarted", true) {
+						okNS = true
 					}
 				}
 				if !okNS && bad == "" {
